@@ -34,9 +34,14 @@ def main():
         rc, out = sh('/venv/bin/python _demo.py', cwd=wt)
         res['demo_without_change'] = {'exit': rc, 'tail': out.strip()[-200:]}
         rc, out = sh('git apply %s' % os.path.join(d, 'patch.diff'), cwd=wt)
+        if rc != 0:
+            # the repository moved on since the change was written (a later fix: commit touches nearby lines): 3-way merge
+            rc, out = sh('git apply --3way %s' % os.path.join(d, 'patch.diff'), cwd=wt)
+            res['applied_with_3way'] = rc == 0
         res['patch_applies'] = rc == 0
         if rc != 0:
             res['apply_error'] = out[-300:]
+            raise SystemExit('patch does not apply to /repo HEAD (rebase it): ' + d)
         rc, out = sh('/venv/bin/python -m pytest -q -p no:cacheprovider 2>&1 | tail -1', cwd=wt)
         res['baseline_tests_with_change'] = out.strip()
         rc, out = sh('/venv/bin/python _demo.py', cwd=wt)
